@@ -51,6 +51,16 @@ DET = {
  "C13-m4": ("C13", "./check C13 --tier quick -> exit 1 (roots buffer with a trailing partial entry panics)", ""),
  "C14-m3": ("C14", "./check C14 --tier quick -> exit 1 (seed read through a short-read reader gives another identity)", "missed at first; seeds (and every byte-level input of the protocol executor) are now also delivered through readers that return 1, 7 or 64 bytes per call"),
  "C14-m4": ("C14", "./check C14 --tier quick -> exit 1 (threads of one process generate the same identities)", ""),
+ "C09-m3": ("C09", "./check C09 --tier quick -> exit 1 (byte-level hash of a reader that reports Interrupted once returns the hash of a prefix)", "missed at first; inputs are also delivered through readers that answer every other call with ErrorKind::Interrupted (to be retried, as the Read contract says)"),
+ "C09-m4": ("C09", "./check C09 --tier quick -> exit 1 (Poseidon of (b, a) right after (a, b) returns the first result)", "caught by the history-derived cases added before this change was tried"),
+ "C17-m3": ("C17", "./check C17 --tier quick -> exit 1 (full build: writing the default value to a fresh position does not raise the mark)", ""),
+ "C17-m4": ("C17", "./check C17 --tier quick -> exit 1 (optimal build: delete exactly at the mark raises it)", ""),
+ "C18-m3": ("C18", "./check C18 --tier quick -> exit 1 (threads whose first verification on a fresh instance coincide panic)", "missed at first; every round now uses a fresh instance and all threads leave a barrier with a verification as their first call"),
+ "C18-m4": ("C18", "./check C18 --tier quick -> exit 1 (concurrent path queries for different positions return another position's path)", "missed at first; a storm of membership-path queries over 8 positions from 16 threads was added (long outputs recorded as digests)"),
+ "C19-m3": ("C19", "./check C19 --tier quick -> exit 1 (shr by 128..253 of operands >= 2^128)", ""),
+ "C19-m4": ("C19", "./check C19 --tier quick -> exit 1 (0 ** (p-1) = 1)", "missed at first: Pow was only judged for exponents 0, 1, 2; now every Pow evaluation carries a square-and-multiply certificate that TLC verifies product by product (exponents incl. (p-1)/2, p-2, p-1, 2^64)"),
+ "C20-m3": ("C20", "./check C20 --tier quick -> exit 1 (second graph in the same buffer evaluated as the first)", "missed at first; the stored graph is now handed over in one long-lived buffer overwritten in place, each graph followed by a twin with one operator exchanged; (the first attempt ended in a tool error: an error string and a vector were compared in the judge - errors are now encoded in the vectors' sort)"),
+ "C20-m4": ("C20", "./check C20 --tier quick -> exit 1 (stored graph with a long input map cannot be read back through 1-byte reads)", "missed at first; graphs with 30-50 named inputs, read back through readers delivering 1, 2 or 13 bytes per call"),
  "C09-m1": ("C09", "./check C09 --tier quick -> exit 1 (Poseidon of 8 inputs: round certificate rejected)", ""),
  "C09-m2": ("C09", "./check C09 --tier quick -> exit 1 (byte-level / FFI hash of a 4097-byte signal differs from Keccak.tla)", "missed at first; hash-to-field lengths 4095, 4096, 4097 (8192, 10000 thorough) added"),
  "C11-m1": ("C11", "./check C11 --tier quick -> exit 1 (metadata after set_tree differs between FFI and API)", "missed at first; life-cycle scenario and set_tree inside random histories added"),
